@@ -94,7 +94,8 @@ package index
 // k-th name read must go to the k-th smallest present stage: the name read in
 // the iteration for position i belongs to stage i+1 (call-site obligation on
 // every ReadFrom; property C12: resolve-undo data decoded as git reports it,
-// deterministically).
+// deterministically). Each name is as long as the index's own hash (`sized`:
+// the id read into has the format of d.h, 32 bytes in a SHA-256 index).
 //gvc:func (*resolveUndoDecoder).readEntry
 //gvc:  props C12 C53
 //gvc:  theory int
@@ -103,6 +104,7 @@ package index
 //gvc:  requires nn: d.r != nil && d.h != nil
 //gvc:  loop 2 invariant stages: 0 <= it2 && it2 <= 3
 //gvc:  sink ReadFrom requires slot: s == it2 + 1
+//gvc:  sink ReadFrom requires sized: (d.h.#hsize == 32) == bytes_eq(recv.format, "sha256")
 //gvc:end
 
 // Cached-tree records (git cache-tree.c read_one): path NUL, entry_count SP
